@@ -11,6 +11,7 @@ typedef struct {
   int role, fill;
   unsigned fillarg;  // bits (F_I64 / F_DBLINT / F_RATIO: |ratio| < 2^fillarg), ignored otherwise
   double fscale;     // F_RATIO: values are ratio * fscale (fscale a power of two)
+  int any_finite;        // F_DBL: every finite double (all exponents, subnormals included) instead of a bounded range
   uint64_t zero_block;  // if non-zero: each block of zero_block elements is entirely zero with probability 1/4
   uint64_t live_limbs;  // INOUT limb vectors of in-place calls with res_size > a_size: limbs >= live_limbs+... are output-only;
                         // 0 = every limb is input. Stored as (number of input limbs + 1)
